@@ -18,3 +18,5 @@ CHECKS['C02'] = {
     'outside': ['|offset| > 2^40 ns', 'more than K ops', 'more than one outstanding wait per timer (unsupported by the API)'],
     'assumptions': ['one outstanding wait per timer'],
 }
+
+NOT_APPLICABLE = {}
